@@ -134,6 +134,9 @@ def c13(run, model):
 
 def c04(run, model):
     _mol_run(run, model, {"K4", "K5", "K6", "C04"}, 4, 12, exhaustive=(3, 4), extra_stream=long_instances)
+    # the same for descriptions given as molfile texts (renumbered, relisted, index numbers not in listing order)
+    import text_checks
+    text_checks.c01_descriptions(run, model, prop="C04")
 
 
 def c12(run, model):
@@ -400,7 +403,7 @@ def replay(run, model, rp):
     if not hit:
         print("replay file names no failing input: ", json.dumps(rp.get("broken")))
         return 1
-    if (hit.get("case") or {}).get("kind") in ("C05-text", "C01-text", "C02-text"):
+    if (hit.get("case") or {}).get("kind") in ("C05-text", "C01-text", "C02-text", "C04-text"):
         import text_checks
         if text_checks.replay_text(run, model, hit):
             print("VIOLATION property=%s replay=%s" % (rp["property"], "(replayed)"))
